@@ -537,3 +537,179 @@ pub fn run_prove_w(ctx: &mut Ctx, args: &[String]) {
                "linearization_poly::compute", "Verifier::verify"]),
     );
 }
+
+// ---------------------------------------------------------------------------
+// Serialization round trips on symbolic contents (C16)
+// ---------------------------------------------------------------------------
+
+/// circuit whose selector constants are free variables (distinct symbols in every selector
+/// column) -- the compiled keys then carry pairwise distinct symbolic polynomials.  `adds`
+/// extra addition rows set the size, `pis` of them carry a public input, `custom` adds a
+/// range and a logic component (q_range, q_logic columns non-zero).
+#[derive(Clone, Default)]
+pub struct SymSelectorCircuit {
+    pub k: Vec<BlsScalar>,
+    pub adds: usize,
+    pub pis: usize,
+    pub custom: bool,
+}
+
+impl Circuit for SymSelectorCircuit {
+    fn circuit(&self, c: &mut Composer) -> Result<(), Error> {
+        let k = |i: usize| self.k.get(i % self.k.len().max(1)).copied().unwrap_or(BlsScalar::from(2 + i as u64));
+        let a = c.append_witness(BlsScalar::from(3u64));
+        let b = c.append_witness(BlsScalar::from(5u64));
+        let d = c.append_witness(BlsScalar::from(7u64));
+        // general gates with free selector values; outputs solved by the composer
+        let o1 = c.append_evaluated_output(
+            Constraint::new().mult(k(0)).left(k(1)).right(k(2)).fourth(k(3)).constant(k(4)).output(k(5)).a(a).b(b).d(d),
+        );
+        let mut acc = o1.unwrap_or(a);
+        let _ = c.append_constant(k(10));
+        for j in 0..self.adds {
+            let mut g = Constraint::new().left(k(6 + j)).right(k(7 + j)).constant(k(8 + j)).a(acc).b(d);
+            if j < self.pis {
+                g = g.public(k(9 + j));
+            }
+            acc = c.gate_add(g);
+        }
+        if self.custom {
+            c.component_range_bits::<4>(a);
+            let x = c.append_logic_and::<1>(a, b);
+            c.assert_equal_constant(x, BlsScalar::from(1u64), None);
+        }
+        Ok(())
+    }
+}
+
+/// 1008 bytes made of 11 arbitrary (symbolic) group elements and 15 arbitrary scalars
+fn arbitrary_proof_bytes(ctx: &mut Ctx, prefix: &str) -> Vec<u8> {
+    let mut b = vec![];
+    for i in 0..11 {
+        b.extend_from_slice(&g1(ctx, &format!("{prefix}c{i}")).to_bytes());
+    }
+    for i in 0..15 {
+        b.extend_from_slice(&ctx.var(&format!("{prefix}e{i}")).to_bytes());
+    }
+    b
+}
+
+fn verify_logged(v: &Verifier, proof: &Proof, pis: &[BlsScalar]) -> (String, Value) {
+    #[cfg(feature = "sym")]
+    dusk_bls12_381::sym::begin_run(&[], false);
+    let r = std::panic::catch_unwind(std::panic::AssertUnwindSafe(|| v.verify(proof, pis)));
+    let r = match r {
+        Ok(x) => format!("{:?}", x),
+        Err(_) => "panic".to_string(),
+    };
+    #[cfg(feature = "sym")]
+    {
+        let (_t, path) = dusk_bls12_381::sym::end_run();
+        return (r, crate::path_json(&path));
+    }
+    #[cfg(not(feature = "sym"))]
+    (r, Value::Null)
+}
+
+/// `roundtrip <adds> <pis> <custom>`: encode -> decode -> encode for Prover, Verifier, Proof and
+/// PublicParameters whose contents are symbolic (SRS secret/bases, selector constants,
+/// blinders), and behaviour of the decoded objects (same proof from the same randomness, same
+/// acceptance condition on an honest and on an arbitrary proof).
+pub fn run_roundtrip(ctx: &mut Ctx, args: &[String]) {
+    use crate::kernels::ScriptedRng;
+    let adds: usize = args.get(0).map(|x| x.parse().unwrap()).unwrap_or(1);
+    let pis: usize = args.get(1).map(|x| x.parse().unwrap()).unwrap_or(1);
+    let custom = args.get(2).map(|x| x == "1").unwrap_or(false);
+    #[cfg(feature = "sym")]
+    {
+        dusk_bls12_381::sym::set_transcript_symbolic(true);
+        dusk_bls12_381::sym::begin_run(&[], false);
+    }
+    let circuit = SymSelectorCircuit { k: (0..11).map(|i| ctx.var(&format!("sel{i}"))).collect(), adds, pis, custom };
+    let n = {
+        let mut probe = Composer::initialized();
+        circuit.circuit(&mut probe).unwrap();
+        probe.constraints()
+    };
+    ctx.out_json("constraints", json!(n));
+    let degree = (n + 6).next_power_of_two() + 6;
+    let mut srs_rng = ScriptedRng::with_prefix(ctx, "srs", 8);
+    let pp = PublicParameters::setup(degree, &mut srs_rng).expect("setup");
+    let mut flags: Vec<(&str, Value)> = vec![];
+    // ---- public parameters
+    let raw = pp.to_raw_var_bytes();
+    let pp_raw = unsafe { PublicParameters::from_slice_unchecked(&raw) };
+    flags.push(("pp_raw_roundtrip_identical", json!(pp_raw.to_raw_var_bytes() == raw && pp_raw.to_var_bytes() == pp.to_var_bytes())));
+    let var = pp.to_var_bytes();
+    match PublicParameters::from_slice(&var) {
+        Ok(p2) => flags.push(("pp_checked_roundtrip_identical", json!(p2.to_var_bytes() == var && p2.to_raw_var_bytes() == raw))),
+        Err(e) => flags.push(("pp_checked_roundtrip_identical", json!(format!("Err({:?})", e)))),
+    }
+    // ---- proof canonicity on arbitrary accepted contents: layout of the 1008 bytes
+    let arb = arbitrary_proof_bytes(ctx, "arb_");
+    let mut arb_arr = [0u8; Proof::SIZE];
+    arb_arr.copy_from_slice(&arb);
+    let arb_proof = Proof::from_bytes(&arb_arr);
+    flags.push(("arbitrary_proof_reencodes_to_itself", json!(arb_proof.as_ref().map(|p| p.to_bytes()[..] == arb[..]).unwrap_or(false))));
+    // ---- prover / verifier
+    let (prover, verifier) = Compiler::compile_with_circuit(&pp, b"verif-roundtrip", &circuit).expect("compile");
+    let pb = prover.to_bytes();
+    let vb = verifier.to_bytes();
+    ctx.out_json("prover_bytes", json!(pb.len()));
+    ctx.out_json("verifier_bytes", json!(vb.len()));
+    let p2 = Prover::try_from_bytes(&pb);
+    let v2 = Verifier::try_from_bytes(&vb);
+    match (&p2, &v2) {
+        (Ok(p2), Ok(v2)) => {
+            flags.push(("prover_roundtrip_identical", json!(p2.to_bytes() == pb)));
+            flags.push(("verifier_roundtrip_identical", json!(v2.to_bytes() == vb)));
+            // behaviour: same proof from the same randomness
+            let mut r1 = ScriptedRng::with_prefix(ctx, "blind", 20);
+            let mut r2 = ScriptedRng::with_prefix(ctx, "blind", 20);
+            let a = prover.prove(&mut r1, &circuit);
+            let b = p2.prove(&mut r2, &circuit);
+            match (a, b) {
+                (Ok((pa, ia)), Ok((pbf, ib))) => {
+                    let ea = pa.to_bytes();
+                    flags.push(("decoded_prover_same_proof", json!(ea == pbf.to_bytes() && ia == ib && r1.log == r2.log)));
+                    ctx.out_json("public_inputs", json!(ia.len()));
+                    let back = Proof::from_bytes(&ea);
+                    flags.push(("proof_roundtrip_identical", json!(back.map(|p| p.to_bytes() == ea).unwrap_or(false))));
+                    #[cfg(feature = "sym")]
+                    let _ = dusk_bls12_381::sym::end_run();
+                    // same acceptance condition: the two verifiers make the same sequence of
+                    // comparisons on the same terms (honest proof, arbitrary proof, arbitrary
+                    // proof with arbitrary public inputs)
+                    let (va, pa1) = verify_logged(&verifier, &pa, &ia);
+                    let (vb_, pa2) = verify_logged(v2, &pa, &ia);
+                    flags.push(("honest_proof_same_verdict", json!(va == vb_ && va == "Ok(())")));
+                    flags.push(("honest_proof_same_condition", json!(pa1 == pa2)));
+                    if let Ok(ap) = &arb_proof {
+                        let api: Vec<BlsScalar> = (0..ia.len()).map(|i| ctx.var(&format!("arb_pi{i}"))).collect();
+                        let (x1, q1) = verify_logged(&verifier, ap, &api);
+                        let (x2, q2) = verify_logged(v2, ap, &api);
+                        flags.push(("arbitrary_proof_same_verdict", json!(x1 == x2)));
+                        flags.push(("arbitrary_proof_same_condition", json!(q1 == q2)));
+                        ctx.out_json("arbitrary_proof_verdict", json!(x1));
+                        ctx.out_json("arbitrary_proof_comparisons", json!(q1.as_array().map(|a| a.len()).unwrap_or(0)));
+                    }
+                }
+                (x, y) => flags.push(("prove_error", json!(format!("{:?} / {:?}", x.err(), y.err())))),
+            }
+        }
+        _ => flags.push(("decode_error", json!(format!("{:?} / {:?}", p2.as_ref().err(), v2.as_ref().err())))),
+    }
+    #[cfg(feature = "sym")]
+    ctx.out_json("nodes_in_arena", json!(dusk_bls12_381::sym::node_count()));
+    ctx.out_json("flags", Value::Object(flags.into_iter().map(|(k, v)| (k.to_string(), v)).collect()));
+    ctx.deps_only = true;
+    ctx.meta.insert(
+        "functions".into(),
+        json!(["PublicParameters::{to_raw_var_bytes, from_slice_unchecked, to_var_bytes, from_slice}",
+               "Prover::{to_bytes, try_from_bytes, new}", "ProverKey::{to_var_bytes, from_slice}",
+               "CommitKey::{to_raw_var_bytes, from_raw_var_bytes, to_var_bytes, from_slice}",
+               "Verifier::{to_bytes, try_from_bytes, new}", "VerifierKey / OpeningKey Serializable",
+               "Proof::{to_bytes, from_bytes}", "Polynomial / Evaluations to_var_bytes / from_slice",
+               "Prover::prove", "Verifier::verify"]),
+    );
+}
